@@ -423,6 +423,36 @@ def gen_msg(r, acc, nacc, state):
     ])
 
 
+UNBONDING = 1814400     # staking unbonding time of the test genesis (21 days), seconds
+
+
+def inject_superfluid_scenario(r, blocks, nacc):
+    """several owners lock the SAME superfluid LP denom and delegate to the SAME validator (one synthetic denom, several
+    synthetic locks), with underlying locks longer than the unbonding time (lock for unbonding + 1 week, then
+    MsgSuperfluidDelegate) and exactly the unbonding time (MsgLockAndSuperfluidDelegate): blocks 1-3, before every export point"""
+    def tx(acc, msgs, kinds):
+        return {"acc": acc, "msgs": msgs, "kinds": kinds, "gas": GAS, "fee_denom": "stake", "fee_amt": str(GAS * 3 // 100)}
+    owners = [1, 2, 3][:max(2, min(3, nacc - 1))]
+    pool = r.choice([1, 6])
+    share = "gamm/pool/%d" % pool
+    for b in (1, 2, 3):
+        blocks[b]["txs"] = [t for t in blocks[b]["txs"] if t["acc"] not in owners]
+        blocks[b]["dt"] = min(blocks[b]["dt"], 60)
+    for i, acc in enumerate(owners):
+        A = "$ACC(%d)" % acc
+        blocks[1]["txs"].append(tx(acc, [{"@type": "/osmosis.gamm.v1beta1.MsgJoinPool", "sender": A, "pool_id": str(pool),
+                                          "share_out_amount": str(10**18), "token_in_maxs": []}], ["join"]))
+        amt = [100, 200, 400][i] * 10**12
+        if i == len(owners) - 1 and r.chance(1, 2):
+            blocks[2]["txs"].append(tx(acc, [{"@type": "/osmosis.superfluid.MsgLockAndSuperfluidDelegate", "sender": A,
+                                              "coins": [coin(share, amt)], "val_addr": "$VAL(0)"}], ["sf_lock_delegate_exact_unbonding"]))
+        else:
+            blocks[2]["txs"].append(tx(acc, [{"@type": "/osmosis.lockup.MsgLockTokens", "owner": A, "duration": "%ds" % (UNBONDING + 7 * DAY),
+                                              "coins": [coin(share, amt)]}], ["lock_longer_than_unbonding"]))
+            blocks[3]["txs"].append(tx(acc, [{"@type": "/osmosis.superfluid.MsgSuperfluidDelegate", "sender": A,
+                                              "lock_id": "$LASTLOCKOF(%d)" % acc, "val_addr": "$VAL(0)"}], ["sf_delegate_longer_lock"]))
+
+
 def inject_cache_scenarios(r, blocks, nacc):
     """transactions that touch keeper-level in-memory caches and then FAIL, followed by transactions whose outcome would
     depend on a stale cache entry (a continuously running node keeps the entry, a restarted node does not):
@@ -436,7 +466,7 @@ def inject_cache_scenarios(r, blocks, nacc):
     def strip_creates(block, keep_acc):
         block["txs"] = [t for t in block["txs"] if t["acc"] != keep_acc and not any(k in ("create_bal", "create_cl") for k in t["kinds"])]
     nsc = r.range(1, 2)
-    starts = sorted(set(r.range(2, len(blocks) - 5) for _ in range(nsc)))
+    starts = sorted(set(r.range(4, len(blocks) - 5) for _ in range(nsc)))
     for b0 in starts:
         acc = r.below(nacc)
         A = "$ACC(%d)" % acc
@@ -515,7 +545,8 @@ def gen_workload(r, idx, tier):
             elif val not in stt[key]:
                 stt[key].append(val)
     poison_blocks = inject_cache_scenarios(r, blocks, nacc)
-    exp = sorted(set([r.range(1, nblocks - 4), r.range(nblocks // 2, nblocks - 2)])) if True else []
+    inject_superfluid_scenario(r, blocks, nacc)
+    exp = sorted(set([r.range(5, nblocks - 4), r.range(nblocks // 2, nblocks - 2)]))
     # node B restarts after a few random blocks and right after every block that left a rolled-back pool creation behind
     # (never after the first block: the governance messages of the late setup execute between block 1 and block 2, and a
     # message executed between process start and the first BeginBlock is something no live node does)
@@ -770,6 +801,28 @@ def cmp_pair(w, oa, ob, benign=None, notes=None):
                 rec.update({"diff": d["kind"], "key_prefix": d["key"][:4]})
             v.append({"what": "store %s: raw state of the re-imported chain differs from the original's (export after block index %d): %s %s" % (d["store"], e["at"], d["kind"], d["text"][:400]),
                       "rec": rec})
+        expected = expected_accumulation(e["raw_orig"]["lockup"]) if e.get("raw_orig") else None
+        for po, pr, when in ((e.get("probe_orig"), e.get("probe_reimp"), "right after the import"),
+                             (e.get("probe_final_orig"), e.get("probe_final_reimp"), "at the end of the replayed history")):
+            if po is None or pr is None:
+                continue
+            for key in sorted(set(po) | set(pr)):
+                if po.get(key) == pr.get(key):
+                    continue
+                kind = key.split("|")[0]
+                rec = {"kind": "export_import", "what": "query_observable", "observable": kind, "id": "unknown"}
+                note = ""
+                if when == "right after the import" and expected is not None and kind in ("lockup_accumulation", "superfluid_total_synthetic_locked"):
+                    # the property's own reading: the accumulation of (denom, duration) is the sum over the exported (synthetic)
+                    # locks of that denom with at least that duration - computed here from the exported genesis
+                    want = expected(key)
+                    if want is not None and str(want) == pr.get(key) and "/super" in key:
+                        rec["id"] = "lockup_synthetic_accumulation_wrong_on_running_chain"
+                        note = " [sum over the exported locks: %s = the re-imported chain's value]" % want
+                    elif want is not None:
+                        note = " [sum over the exported locks: %s]" % want
+                v.append({"what": "query observable %s differs between the original and the chain re-imported after block index %d (%s): %s vs %s%s"
+                                  % (key, e["at"], when, po.get(key), pr.get(key), note), "rec": rec})
         tail_a = oa["blocks"][e["at"] + 1:]
         for ba, bb in zip(tail_a, e.get("tail") or []):
             d = cmp_blocks(ba, bb, False, "export_import_replay", soft)
@@ -921,6 +974,31 @@ def site_correspondence(out):
             out.mismatches.append({"what": "classified in-memory state no longer exists: %s in %s" % (t[1], t[0]), "case": None})
     out.ncaches = len(caches)
     return sites
+
+
+def expected_accumulation(lockup_js):
+    """-> f(probe key) = sum over the exported locks / synthetic locks of the key's denom with duration >= the key's duration"""
+    by = {}
+    amt_of = {}
+    for l in lockup_js.get("locks", []):
+        amt_of[l["ID"]] = l["coins"]
+        for c in l["coins"]:
+            by.setdefault(c["denom"], []).append((dur_ns(l["duration"]), int(c["amount"])))
+    for sl in lockup_js.get("synthetic_locks", []):
+        cs = amt_of.get(sl["underlying_lock_id"]) or []
+        if len(cs) == 1:
+            by.setdefault(sl["synth_denom"], []).append((dur_ns(sl["duration"]), int(cs[0]["amount"])))
+
+    def f(key):
+        parts = key.split("|")
+        if parts[0] == "lockup_accumulation":
+            d = int(parts[2])
+        elif parts[0] == "superfluid_total_synthetic_locked":
+            d = UNBONDING * 10**9
+        else:
+            return None
+        return sum(a for du, a in by.get(parts[1], []) if du >= d)
+    return f
 
 
 def strip_case(w):
